@@ -262,22 +262,24 @@ class RankLawHarness(_Base):
 
     RMAX = 3
 
-    def __init__(self, N, mode, drop=None, label=None):
+    def __init__(self, N, mode, drop=None, label=None, names=None):
         ops.setup()
         from .symint import SymInt
         self.N, self.M, self.mode = N, 0, mode
-        tt.set_universe(N)
+        # atom names deliberately NOT in alphabetical order (bit i of a world = signature[i])
+        self.names = names or ["z0", "m1", "b2", "k3"][:N]
+        tt.set_universe(N, self.names)
         W = CTX.W
         self.R = [Z.Int("R%d" % w) for w in range(W)]
         self.FA = Z.BitVec("FA", W)
         self.FB = Z.BitVec("FB", W)
         self.vars = self.R + [self.FA, self.FB]
         self.drop = drop or []
-        self.label = label or "CustomPreOCF[%s] N=%d%s" % (mode, N, (" drop=%s" % self.drop) if self.drop else "")
+        self.label = label or "CustomPreOCF[%s] N=%d signature=%s%s" % (mode, N, self.names, (" drop=%s" % self.drop) if self.drop else "")
         self.reset()
 
     def mk_engine(self):
-        tt.set_universe(self.N)
+        tt.set_universe(self.N, self.names)
         pre = [Z.And(r >= 0, r <= self.RMAX) for r in self.R]
         return symex.Engine(assumptions=pre, max_decisions=6000)
 
@@ -394,7 +396,7 @@ class RankLawHarness(_Base):
 
     def replay(self, cand):
         vars_ = cand["vars"]
-        tt.set_universe(self.N)
+        tt.set_universe(self.N, self.names)
         ranks = {world_str(w, self.N): vars_["R%d" % w] for w in range(CTX.W)}
         job = {"atoms": list(CTX.atom_names), "steps": [{"op": "exec", "src": _RSRC, "ranks": ranks, "mode": self.mode,
                                                           "fa": concretise.table_to_tree(vars_["FA"], const="literal"),
